@@ -84,3 +84,24 @@ func TestDocxMarkdownContinuationColumn(t *testing.T) {
 	}
 	t.Fatalf("B2 not found in %q", md)
 }
+
+// R16.6: paragraphs nested in table cells must not be counted as body paragraphs
+func TestDocxTablesBetweenParagraphs(t *testing.T) {
+	cell := func(a, b string) string {
+		return `<w:tc><w:p><w:r><w:t>` + a + `</w:t></w:r></w:p><w:p><w:r><w:t>` + b + `</w:t></w:r></w:p></w:tc>`
+	}
+	para := func(s string) string { return `<w:p><w:r><w:t>` + s + `</w:t></w:r></w:p>` }
+	p := docxOf(t, para("P0")+`<w:tbl><w:tr>`+cell("T0a", "T0b")+`</w:tr></w:tbl>`+para("P1")+`<w:tbl><w:tr>`+cell("T1a", "T1b")+`</w:tr></w:tbl>`+para("P2"))
+	txt, _, err := tabula.Open(p).Text()
+	if err != nil {
+		t.Fatal(err)
+	}
+	last := -1
+	for _, w := range []string{"P0", "T0a", "P1", "T1a", "P2"} {
+		i := strings.Index(txt, w)
+		if i < 0 || i < last {
+			t.Fatalf("%s missing or out of document order in %q", w, txt)
+		}
+		last = i
+	}
+}
